@@ -19,6 +19,7 @@ EXPLANATION = ("For every BaseSimObj subclass of the simulator core (Simulator, 
                "while the event pop and processing precede it; update_scheduler attaches a fresh Interface and copies max_recompute; the "
                "resumption-critical simulator attributes are all dumped and restored."
                " Added in round 3: JSON text keeps mapping insertion order (no sort_keys / object hooks), the whole attribute is dumped (no slice), the three protocol dictionaries are never passed in each other's place, constructors store every parameter under its own name and delegate to the parent constructor with like-named arguments.")
+EXPLANATION += ' Added in rounds 4-5: the station mapping and per-station level lists are dumped and rebuilt by walking the original in its own order, unfiltered; the result of a restore helper that loads nested objects may not be dropped.'
 NOT_DECIDED = ("equality of the resumed trajectory with the reference one; an interruption in the very last period (the queue is already "
                "empty, so the final iteration is not replayed); JSON-representability of user-supplied signals")
 
